@@ -85,7 +85,13 @@ def run(tier, replay=None):
         # (0) the harness' own reference encoder agrees with the specification (keeps wire_ref honest for the other checks)
         # (1) serialisation = the RFC layout
         if expressible(ps):
-            got = bytes(V.build_message(h, [V.build_payload(p) for p in ps]).to_bytes())
+            try:
+                got = bytes(V.build_message(h, [V.build_payload(p) for p in ps]).to_bytes())
+            except Exception as ex:       # noqa: B902 - the library refuses to build / serialise content that RFC 7296 section 3 allows
+                v.violation(f'a message that RFC 7296 allows cannot be built or serialised with the payload classes: {type(ex).__name__}: {ex}',
+                            {'h': h, 'ps': [{k: (x if k != 'data' else f'<{len(x)} octets>') for k, x in p.items()} for p in ps]},
+                            signature={'component': 'encode:raises', 'exception': type(ex).__name__, 'types': str(sorted({p['t'] for p in ps}))})
+                continue
             n['encode'] += 1
             if got != want:
                 v.violation(f'to_bytes differs from the RFC 7296 layout for payloads {[p["t"] for p in ps]} / header {h["xchg"]},{h["major"]}.{h["minor"]}',
